@@ -10,5 +10,5 @@ Extraction "model.ml"
   RetTrie.rdb_run RetTrie.rspec_run RetTrie.retain_op C07O.rmodel_answer C07O.c07_store_ok C07O.mmeq Msg.msg_total_bytes
   C10O.c10_ok C10O.model_outs C10O.oout_of
   C03O.c03_lim_ok C03O.lim_model C03O.alias_ok C03O.am_run Limiter.am_new C03O.unack_run C03O.unack_ok
-  Broker.st_init Broker.step Broker.run Broker.no_hooks
+  Broker.st_init Broker.step Broker.run Broker.no_hooks Broker.set_picks_tag
   TopicMatch.valid_name_spec TopicMatch.valid_filter_spec Topic.topic_match.
